@@ -2,8 +2,9 @@
    the derived `==` / `Hash` on them coincide with mathematical identity
    (PointProofs.poly_eq_iff_same_poly, sparse_eq_iff_same_poly apply to every operator result);
    `p -= &p` on a sparse polynomial is the empty term list. *)
-From V Require Import Base.Field C08.Model C08.Common C08.SparseAdd C19.OrdModel C19.PointProofs.
-Require Import Coq.setoid_ring.Field Coq.setoid_ring.Ring Bool Lia.
+From V Require Import Base.Field C08.Model C08.Common C08.SparseAdd C19.OrdModel C19.PolyExprs C19.PointProofs C03.FieldHyp C19.Examples.
+Require Import Coq.setoid_ring.Field Coq.setoid_ring.Ring Bool Lia Qcanon.
+Open Scope Z_scope.
 
 Section PolyResults.
   Context {K : Type} (F : Fops K).
@@ -18,9 +19,8 @@ Section PolyResults.
   Hypothesis r_zero : r (f0 F) = z.
   Hypothesis r_nonzero : forall c, c <> f0 F -> r c <> z.
 
-  Definition stored_sparse (s : list (nat * K)) : list (Z * T) :=
-    map (fun t => (Z.of_nat (fst t), r (snd t))) s.
-  Definition stored_dense (p : list K) : list T := map r p.
+  Local Notation stored_sparse := (stored_sparse r).
+  Local Notation stored_dense := (stored_dense r).
 
   Lemma stored_sparse_canonical : forall s lo, sorted_from F lo s ->
     sparse_canonical z (Z.of_nat lo) (stored_sparse s).
@@ -40,7 +40,7 @@ Section PolyResults.
     change (last (x :: y :: p') (f0 F)) with (last (y :: p') (f0 F)). exact IH.
   Qed.
 
-  Lemma stored_dense_canonical : forall p, canon F p -> dense_canonical z (stored_dense p).
+  Lemma stored_dense_canonical : forall p, Common.canon F p -> dense_canonical z (stored_dense p).
   Proof.
     intros p [-> | Hl]; [left; reflexivity|].
     right. unfold stored_dense. rewrite last_map_r. apply r_nonzero. exact Hl.
@@ -91,3 +91,13 @@ Section PolyResults.
     apply (merge_self_neg ((i, x) :: a) []).
   Qed.
 End PolyResults.
+
+(* witnesses: a canonical sparse polynomial 2x + 5x^3 over Q, the identity encoding *)
+Lemma ex_scanon : scanon QcOps [(1%nat, q 2); (3%nat, q 5)] /\ Common.canon QcOps [q 2; q 0; q 5] /\
+  (forall c : Qc, c <> f0 QcOps -> (fun x => x) c <> f0 QcOps).
+Proof.
+  split; [|split].
+  - cbn. repeat split; try lia; [exact ex_rescale_nz | exact ex_five_nz].
+  - right. exact ex_five_nz.
+  - intros c H. exact H.
+Qed.
